@@ -14,12 +14,16 @@ PARSE_ERRORS = ("UnexpectedInput", "UnexpectedCharacters", "UnexpectedToken", "U
 def infeasible(ctx, n):
     out = []
     rng = ctx.rng
-    base = gens.family(ctx, "coredeps", n) + gens.family(ctx, "alap", n // 2) + gens.family(ctx, "taskalap", n // 2)
+    base = (gens.family(ctx, "coredeps", n) + gens.family(ctx, "alap", n // 2) + gens.family(ctx, "taskalap", n // 2)
+            + gens.family(ctx, "subslot", n // 2) + gens.family(ctx, "trees", n // 3))
     for ap in base:
         ap = copy.deepcopy(ap)
         leaves = [(p, nd) for p, nd in projects.walk(ap["tasks"]) if "kids" not in nd]
-        k = rng.randint(0, 7)
+        k = rng.randint(0, 8)
         p, nd = rng.choice(leaves)
+        rleaf = [r["id"] for _, r in projects.walk(ap["resources"]) if "kids" not in r]
+        if "effort" in nd and len(nd.get("alloc", [])) == 1 and nd["alloc"][0] in rleaf and len(rleaf) >= 2 and rng.random() < 0.4:
+            nd["alt"] = [rng.choice([x for x in rleaf if x != nd["alloc"][0]])]      # the infeasible task has an alternative
         if k == 0 and len(leaves) >= 2:          # dependency cycle
             q, nq = rng.choice([x for x in leaves if x[0] != p])
             nd.setdefault("deps", []).append({"to": list(q), "style": "abs"})
@@ -45,6 +49,11 @@ def infeasible(ctx, n):
             nd.pop("start", None)
         elif k == 7 and "effort" in nd:          # tiny effort
             nd["effort"] = 1
+        elif k == 8 and "effort" in nd and not ap.get("alap") and not nd.get("sched"):
+            # work pinned so late that it cannot finish before the end of the horizon
+            hor = {"w": 7, "d": 1}[ap["dur"][0]] * ap["dur"][1]
+            nd["start"] = ap["start"] - ap["start"] % 86400 + (hor - rng.choice([0, 1, 2, 3])) * 86400 + rng.choice([0, 9, 16]) * 3600
+            nd["effort"] = rng.choice([2400, 4800, 480])
         ap["_family"] = "infeasible%d" % k
         out.append(ap)
     return out
@@ -114,7 +123,7 @@ def run(ctx):
         violations.append({"no_input": True, "replay": common.write_replay(ctx, {"property": "C11", "kind": "proof obligation no longer checks; no failing input found", "failing_obligations": failing})})
     cov = {"obligations": nob, "discharged": ndis, "checker_cmd": "tools/coqbuild.sh (coqc 8.16.1 full .vo build)", "trusted_base": common.TRUSTED, "files": files,
            "traces_validated_against_impl": len(aps) + len(texts), "input_distribution": dict(stats),
-           "rule": "grammatical infeasible projects (cycles, self-dependencies, pinned dates before/after the horizon, never-working resources, huge and one-minute efforts, huge gaps, ALAP deadlines outside the horizon) in isolated workers with a time limit; corrupted variants (token deletion, duplication, swap, replacement) of valid texts: the outcome must be a result or a parse error. The fault-injection part is testing and is labelled so: Lark, the transformer and Python exceptions outside slot indexing are not modelled.",
+           "rule": "grammatical infeasible projects (cycles, self-dependencies, pinned dates before/after the horizon, never-working resources, huge and one-minute efforts, huge gaps, ALAP deadlines outside the horizon, work pinned too close to the end of the horizon, alternatives on the infeasible task, resource groups in allocations) in isolated workers with a time limit; corrupted variants (token deletion, duplication, swap, replacement) of valid texts: the outcome must be a result or a parse error. The fault-injection part is testing and is labelled so: Lark, the transformer and Python exceptions outside slot indexing are not modelled.",
            "samples": [{"family": aps[0]["_family"], "project": projects.render(aps[0])[:1000]}, {"malformed": texts[0][:400]}]}
     common.finish(ctx, "proof", cov, violations,
                   ["partial: the theorems cover termination of the model (structural fuel) and that no slot outside the horizon is touched; everything in front of the scheduler (Lark, transformer) is exercised by fault injection only"])
